@@ -2,7 +2,7 @@
    Statements only; proofs are in Proofs/CliContract.v and Proofs/AnalyzerProofs.v. *)
 From Coq Require Import List NArith Bool Permutation.
 From Verif Require Import Base.Res Model.Cli Model.Analyzer Proofs.CliContract Proofs.AnalyzerProofs Base.Text Model.Scope Proofs.ScopeProofs Gen.GenRules Model.Rules Proofs.RulesProofs.
-From Verif Require Model.ExprKind Proofs.ExprKindProofs.
+From Verif Require Model.ExprKind Proofs.ExprKindProofs Model.DataDecl Proofs.DataDeclProofs.
 Import ListNotations.
 
 (* a file that fails to tokenize or parse makes the check of the whole set fail, whatever the other
@@ -88,3 +88,9 @@ Proof. exact xform_type_init_duplicate. Qed.
 Theorem C03_unresolved_expression_not_masked : forall us u, In u us -> ExprKind.unit_res u = None ->
   ExprKind.resolve_expr_kinds (flat_map ExprKind.flat_unit us) = None.
 Proof. exact ExprKindProofs.failing_unit_not_masked. Qed.
+
+(* the alias resolution stops at a second declaration of a declared type name: it is diagnosed, not collapsed *)
+Theorem C03_second_type_declaration_diagnosed : forall s n k p,
+  Rules.mem n (DataDecl.d_decl s) = true -> DataDecl.node_data (DataDecl.d_nodes s) n <> None ->
+  DataDecl.dstep s (DataDecl.TyDecl n (Some k) p) = inr (P_DeclarationNameDuplicated, p).
+Proof. exact DataDeclProofs.duplicate_declaration_diagnosed. Qed.
